@@ -44,15 +44,6 @@ func dmrefSelfTest() error {
 	return nil
 }
 
-func dmLibSymbol(s dmref.Symbol) *dmenc.SymbolInfo {
-	for _, si := range dmenc.VerifSymbols() {
-		if si.GetSymbolHeight() == s.Rows && si.GetSymbolWidth() == s.Cols {
-			return si
-		}
-	}
-	return nil
-}
-
 func c08Tables(r *fw.Rec) {
 	// encoder symbol table
 	lib := dmenc.VerifSymbols()
@@ -373,20 +364,6 @@ func c08Symbol(r *fw.Rec, s dmref.Symbol) {
 	if s.Rows == 16 && s.Cols == 16 {
 		r.Sample(info)
 	}
-}
-
-func shapeOf(s dmref.Symbol) int {
-	if s.Rect {
-		return dmref.ShapeRect
-	}
-	return dmref.ShapeSquare
-}
-
-func shapeHint(s dmref.Symbol) dmenc.SymbolShapeHint {
-	if s.Rect {
-		return dmenc.SymbolShapeHint_FORCE_RECTANGLE
-	}
-	return dmenc.SymbolShapeHint_FORCE_SQUARE
 }
 
 // c08Randomise: pad and Base-256 randomisation at every position up to 1558, observed in EncodeHighLevel's output.
